@@ -408,3 +408,12 @@ package decoder
 //@ spec editOK(c lang.Candidate, pos hcl.Pos) bool = c.TextEdit.Range.Start.Byte <= c.TextEdit.Range.End.Byte && c.TextEdit.Range.Start.Byte <= pos.Byte
 //@ contract (decoder.LiteralValue).CompletionAtPos (lv, ctx, pos) (result)
 //@   ensures [C02,C06] implies(typ != cty.Bool, forall(i, 0, len(result), editOK(result[i], pos)))
+
+// ---- C12: the hover of a block type carries the description the schema gives the block, whether or not the
+// ---- block has a static body.
+//@ contract (*decoder.PathDecoder).hoverContentForBlock (d, bType, schema) (content)
+//@   ensures [C12] implies(schema.Description.Value != "" && (schema.Body == nil || schema.Body.HoverURL == ""), endsWith(content.Value, "\n\n" + schema.Description.Value))
+//@ contract decoder.hoverContentForAttribute (name, aSchema) (content)
+//@   requires aSchema != nil
+//@   ensures [C12] len(content.Value) > 0
+//@   ensures [C12] implies(aSchema.Description.Value != "", endsWith(content.Value, "\n\n" + aSchema.Description.Value))
